@@ -991,6 +991,7 @@ void BW_MidiSequencer::buildTimeLine(const std::vector<MidiEvent> &tempos,
     m_fullSongTimeLength += m_postSongWaitDelay;
     // Set begin of the music
     m_trackBeginPosition = m_currentPosition;
+    m_tempoBegin = m_tempo;
     // Initial loop position will begin at begin of track until passing of the loop point
     m_loopBeginPosition  = m_currentPosition;
     // Set lowest level of the loop stack
@@ -2242,6 +2243,7 @@ double BW_MidiSequencer::getLoopEnd()
 void BW_MidiSequencer::rewind()
 {
     m_currentPosition   = m_trackBeginPosition;
+    m_tempo             = m_tempoBegin;
     m_atEnd             = false;
 
     m_loop.loopsCount = m_loopCount;
